@@ -7,6 +7,7 @@ import (
 	"encoding/hex"
 	"encoding/json"
 	"fmt"
+	"math"
 	"sort"
 	"strings"
 
@@ -41,6 +42,9 @@ func c14Values() []any {
 		l(), l("a"), l("a", "b"), l(1, "a", true), l("", "x"), l(l("a"), l("b", "c")), l(l("a"), "b"), l(l(), l()), l(m("k", "v")), l(m("k", "v"), m("j", 1)), l(1.5, 2), l("a", l(l("b"))),
 		m(), m("k", "v"), m("b", 1, "a", 2), m("k", ""), m("k", l("x", "y")), m("k", l(), "j", "v"), m("k", m("n", 1)), m("a", true, "b", 1.5, "c", "s"), m("k", l(1, "")),
 		m("a", m("b", m("c", l(1, m("d", "e"))))), m("z", "1", "y", "true", "x", "null"), m("k", l(l("n"))),
+		// integers around the 32/53/64-bit boundaries, floats that must stay floats
+		2147483647, 2147483648, -2147483649, 9007199254740993, math.MaxInt64, math.MinInt64, 0.1, 1e21, 1e-7,
+		m("big", 3000000000, "huge", 9007199254740993, "max", math.MaxInt64, "f", 0.1), l(2147483648, 4294967296, -2147483649),
 	}
 }
 
@@ -516,7 +520,7 @@ func c14RoundTrip(c *core.Ctx, v any, format string) {
 	if v == nil {
 		want = []any{map[string]any{}}
 	}
-	if !core.EqualLoose(dec, want) {
+	if !core.EqualIntsExact(dec, want) {
 		c.Outcome("ROUND-TRIP-DIFFERS")
 		c.Fail("decode-inverts-encode", "round-trip-differs", wit, map[string]any{"text": text, "got": dec, "want": want})
 		return
@@ -534,7 +538,7 @@ func c14RoundTrip(c *core.Ctx, v any, format string) {
 			return
 		}
 		pv, perr := c14ParseText(out, string(b))
-		if perr != nil || !core.EqualLoose(pv, map[string]any{"r": v}) {
+		if perr != nil || !core.EqualIntsExact(pv, map[string]any{"r": v}) {
 			c.Outcome("RENDERED-DIFFERS")
 			c.Fail("decode-inverts-encode", "rendered-value-differs", wit+" -> "+out, map[string]any{"bytes": string(b), "parsed": pv, "want": v})
 			return
@@ -610,7 +614,7 @@ func buildC14(tier string) *core.Plan {
 		}})
 	return &core.Plan{
 		Spaces: spaces,
-		Rule:   "34 values (scalars, flat/nested maps and lists, list-valued and empty-string entries) x every stack of <=2 (thorough 3) of 29 transform spellings (valid, malformed arguments, unknown, non-string) in map form, list-marker form and $value form; decode(encode(v)) for 6 formats",
+		Rule:   "46 values (scalars, flat/nested maps and lists, list-valued and empty-string entries) x every stack of <=2 (thorough 3) of 29 transform spellings (valid, malformed arguments, unknown, non-string) in map form, list-marker form and $value form; decode(encode(v)) for 6 formats",
 		Assumptions: []string{"refEncode is built on crypto/sha256, encoding/base64, encoding/json and strings; yaml/toml text is judged by parsing it back with yaml.v3 / go-toml called directly (not through bkl) and comparing values",
 			"not judged: base64/sha256 of containers, join/prefix/tolist over nested containers, toml of non-maps or of empty/mixed arrays, a transform applied to yaml/toml text (exact bytes not fixed)"},
 		Bounds: map[string]any{"values": len(vals), "transforms": len(c14Transforms)},
